@@ -474,6 +474,23 @@ func genSchema(t *rapid.T) pmodel.Schema {
 	req := pmodel.Msg{Name: "Req", Fields: genFields(t, refsTop, rapid.IntRange(1, 6).Draw(t, "nReq"))}
 	resp := pmodel.Msg{Name: "Resp", Fields: genFields(t, refsTop, rapid.IntRange(1, 5).Draw(t, "nResp"))}
 	main := pmodel.File{Name: "main.proto", Package: "pkg", Imports: []string{"other.proto"}, Enums: []pmodel.Enum{color}, Msgs: []pmodel.Msg{a, b, req, resp}}
+	if rapid.IntRange(0, 3).Draw(t, "wide") == 0 {
+		// a wide message of look-alike names (same length, two or ten different bytes per position): the name map of such a
+		// message is a hash table, not a trie; "ab" and "bA" have the same 32-bit DJB hash, so every name has a twin of equal
+		// hash and length
+		wide := pmodel.Msg{Name: "Wide"}
+		d := rapid.IntRange(50, 60).Draw(t, "wideDigits")
+		first := rapid.IntRange(0, 1).Draw(t, "wideFirst")
+		num := int32(1)
+		for i := 0; i < d; i++ {
+			for k := 0; k < 2; k++ {
+				wide.Fields = append(wide.Fields, pmodel.Field{Name: fmt.Sprintf("f%s%02d", []string{"ab", "bA"}[(k+first)%2], i), Num: num, Kind: "int32"})
+				num++
+			}
+		}
+		main.Msgs = append(main.Msgs, wide)
+		main.Msgs[2].Fields = append(main.Msgs[2].Fields, pmodel.Field{Name: "wide_ref", Num: 18990, Kind: "message", Ref: "Wide"})
+	}
 	if topItem {
 		main.Msgs = append(main.Msgs, pmodel.Msg{Name: "Item", Fields: genFields(t, []string{"A", "B"}, rapid.IntRange(1, 3).Draw(t, "nTopItem"))})
 	}
